@@ -18,6 +18,7 @@ import (
 	_ "hv/props/c04"
 	_ "hv/props/c11"
 	_ "hv/props/c05"
+	_ "hv/props/c10"
 )
 
 func main() {
